@@ -28,6 +28,7 @@ def run(eng, ctx):
     T = eng.tables
     fr = oracle("frames.json")["rtcm3"]
     n1 = SH.identity_bits(eng, ctx, "C15.D1")
+    SH.constructor_admission(eng, ctx, "C15.D6")  # "message numbers without a payload definition never cause an error"
 
     # ---------------- D2 first fields
     ctx.rule("C15.D2", "every definition starts with DF002 = unsigned 12 bits unscaled; IGS definitions have an unsigned field of "
